@@ -119,3 +119,15 @@ Example C06_duplicate_resolved_example :
   map (fun s => akeys (scr_of s)) (gc dx_o [(7%N, 0%N)] dx_plan) = [[7%N]; []] /\
   load_of dx_o (nth_si dx_plan 0) = load_of dx_o (nth_si dx_plan 1) /\ (min_wait <= c_times dx_stat)%N.
 Proof. vm_compute. repeat split; try reflexivity. discriminate. Qed.
+
+(* the general form, for any number of copies: among the copies of one target on in-sync shards, all scraped three times,
+   the best one - normal before in_transfer, then the lower load, then the front position - is the only one the
+   in-sync shards hold after one garbage-collection walk, whatever its order *)
+Theorem C06_one_copy_left_after_one_walk : forall o active w h cw p,
+  is_active active h = true -> nodup_plan p ->
+  si_ok (nth_si p w) = true -> afind h (scr_of (nth_si p w)) = Some cw -> (min_wait <= c_times cw)%N ->
+  (forall j c, j <> w -> si_ok (nth_si p j) = true -> afind h (scr_of (nth_si p j)) = Some c -> worse o w cw p j c) ->
+  afind h (scr_of (nth_si (gc o active p) w)) = Some cw /\
+  forall j, j <> w -> si_ok (nth_si p j) = true -> afind h (scr_of (nth_si (gc o active p) j)) = None.
+Proof. exact gc_leaves_the_best_copy. Qed.
+Print Assumptions C06_one_copy_left_after_one_walk.
